@@ -490,12 +490,15 @@ def selftest():
         hit = inv in res.violated
         print('selftest: Mutant=%-12s %-15s %s (%d states)' % (mutant, inv, 'violated as expected' if hit else 'NOT VIOLATED', res.distinct))
         ok = ok and hit
-    cfg = model_cfg(spec='Spec', threads=2, fns='Fns2', codes=2, coll=1, redef=0)
+    cfg = model_cfg(spec='Spec', threads=2, fns='Fns2', codes=3, coll=1, redef=1, req=1)
     res = tlc.run_tlc('ConvCache', cfg, workers=4, timeout=900, name='c10_self_cov', coverage=True)
     res.require_ok('coverage run')
-    wanted = ['Start', 'HasBegin', 'FastRead', 'HasEnd', 'FastGet', 'Acquire', 'ReCheck', 'LockGet', 'TransformBegin', 'Nested',
-              'TransformFail', 'TransformOk', 'Store', 'Release', 'ReleaseFail', 'Raise', 'Instantiate', 'Return', 'Collect']
-    missing = [a for a in wanted if res.coverage.get(a, (0, 0))[0] == 0]
+    import re
+    cov = {m.group(1): int(m.group(2)) for m in re.finditer(r'(?m)^<(\w+) line [^>]*>: (\d+):\d+', res.stdout)}
+    wanted = ['SomeStart', 'HasBegin', 'FastRead', 'HasEnd', 'FastGet', 'Acquire', 'ReCheck', 'LockGet', 'TransformBegin',
+              'SomeNested', 'TransformFail', 'TransformOk', 'Store', 'Release', 'ReleaseFail', 'Raise', 'Instantiate', 'Return',
+              'SomeRedefine', 'SomeCollect']
+    missing = [a for a in wanted if cov.get(a, 0) == 0]
     print('selftest: coverage of actions: %s' % ('all taken' if not missing else 'NEVER TAKEN: %s' % missing))
     ok = ok and not missing
     # corrupted traces
